@@ -72,6 +72,36 @@ def check_literal(t, where, node, value, src):
                     "literal evaluates to a different value/type", src, repr(value), repr(got), rp)
 
 
+_G_SEL = "nominal"
+_G_CUT = 30
+def _hsel(j): return j.pt(_G_SEL) > _G_CUT
+
+
+def captured_through_helper(t, DS):
+    """Values captured by an inlined one-line helper, the SAME helper used for several queries
+    while its globals change between them: each query embeds the values of its own moment (seed
+    C13_h: the recovered helper body was cached with the first query's literals baked in)."""
+    for sel, cut in (("nominal", 30), ("q'\"\\\n", 30.5), ("b", True), ("", -0.0), ("nominal", 30)):
+        globals()["_G_SEL"], globals()["_G_CUT"] = sel, cut
+        key = f"helper globals ({sel!r}, {cut!r})"
+        t.case("captured-through-helper:" + key, True, sample=key)
+        t.contract("captured through a helper: the literals equal the values at the call, same type")
+        try:
+            s = DS().Where(
+                lambda j: _hsel(j)
+            )
+        except Exception as ex:
+            t.violation("captured-through-helper:no-exception", f"raises {type(ex).__name__}", key,
+                        repr((sel, cut)), repr(ex)[:200], {"kind": "C13", "where": "helper", "value": key})
+            continue
+        got = [c.value for c in ast.walk(s.query_ast.args[1]) if isinstance(c, ast.Constant)]
+        kf = lambda v: (type(v).__name__, repr(v))     # (ast.walk is breadth first: compare as a multiset)
+        if sorted(map(kf, got)) != sorted(map(kf, [sel, cut])):
+            t.violation("captured-through-helper:ensures literal_eval(result) == p",
+                        "the query embeds other values than the helper's variables hold now", key,
+                        repr([sel, cut]), repr(got), {"kind": "C13", "where": "helper", "value": key})
+
+
 def run(t):
     from func_adl import EventDataset
     from func_adl.util_ast import as_ast, as_literal, check_ast
@@ -165,6 +195,7 @@ def run(t):
                         repr(ex)[:200], {"kind": "C13", "where": "MetaData", "value": key})
             continue
         check_literal(t, "MetaData", q.args[1], v, key)
+    captured_through_helper(t, DS)
     # declared defaults and captured variables: every Constant in an emitted lambda is transportable
     from func_adl import func_adl_callable
     from func_adl.type_based_replacement import reset_global_functions
